@@ -24,3 +24,6 @@ RULE = PRIV_RULE + (' Additionally harness/src/bin/recursive.rs (tags "full-recu
 def nontrivial(case, model_out):
     segs = case.segs.split(";")
     return int(segs[0].split()[0], 16) >= 2 or case.fid == "602"
+
+# fids whose cases apply hint overrides addressed by (generator kind, occurrence) - see runner.default_judge
+OVERRIDE_FIDS = {"602"}
